@@ -10,8 +10,8 @@
 (* reduce_db keeps blocking clauses, assumption/pure interplay) is diagnostic (`div`).       *)
 EXTENDS Dpll, Sequences, TLC, Json, IOUtils
 Batch == JsonDeserialize(IOEnv.TRACE_FILE)
-VARIABLES tid, l, trail, db, lemmas, nblock, seen, ok, why, div
-vars == <<tid, l, trail, db, lemmas, nblock, seen, ok, why, div>>
+VARIABLES tid, l, trail, db, lemmas, nblock, seen, ok, why, why2, div
+vars == <<tid, l, trail, db, lemmas, nblock, seen, ok, why, why2, div>>
 T == Batch[tid]
 Ev == T.events
 ToSet(s) == {s[i] : i \in 1..Len(s)}
@@ -34,10 +34,10 @@ Prefix(k) == SelectSeq(trail, LAMBDA e : e.lvl <= k)
 LitsOf(s) == [i \in 1..Len(s) |-> s[i].lit]
 
 Init == /\ tid \in 1..Len(Batch) /\ l = 1 /\ trail = <<>> /\ db = <<>> /\ lemmas = {} /\ nblock = 0
-        /\ seen = [learn |-> 0, maxiter |-> FALSE, budget_ok |-> TRUE] /\ ok = TRUE /\ why = "" /\ div = {}
+        /\ seen = [learn |-> 0, maxiter |-> FALSE, budget_ok |-> TRUE] /\ ok = TRUE /\ why = "" /\ why2 = "" /\ div = {}
 
-Fail(w) == ok' = FALSE /\ why' = w
-Pass == UNCHANGED <<ok, why>>
+Fail(w) == ok' = FALSE /\ why' = w /\ why2' = w       \* step-level clauses (Learn, NoReturn, Raise) belong to C02
+Pass == UNCHANGED <<ok, why, why2>>
 Diag(cond, name) == div' = IF cond THEN div ELSE div \cup {name}
 
 \* ---- (R) return checks
@@ -46,23 +46,27 @@ BadModel(m) ==     \* "" or the name of the broken clause
   ELSE IF ~SatBy(m, InCnf) THEN "Model.falsifies_input_clause"
   ELSE IF ~(Assum \subseteq m) THEN "Model.contradicts_assumption"
   ELSE ""
+\* two independent verdicts at return: <<model clauses (C01), verdict clauses (C02)>>
 ReturnCheck(e) ==
   LET sols == [i \in 1..Len(e.sols) |-> ToSet(e.sols[i])]
       bad == {i \in 1..Len(sols) : BadModel(sols[i]) # ""}
       hasmodel == Len(sols) > 0
       unsat == ~Dpll(InCnf \cup Units(Assum))
-  IN IF bad # {} THEN BadModel(sols[CHOOSE i \in bad : \A j \in bad : i <= j])
-     ELSE IF e.has_first /\ BadModel(ToSet(e.first)) # "" THEN BadModel(ToSet(e.first))
-     ELSE IF Cardinality({sols[i] : i \in 1..Len(sols)}) # Len(sols) THEN "Model.duplicate"
-     ELSE IF e.status = "INFEASIBLE" THEN
-          (IF hasmodel \/ e.has_first THEN "ReturnUnsat.with_a_model"
-           ELSE IF ~unsat THEN "ReturnUnsat.formula_is_satisfiable" ELSE "")
-     ELSE IF e.status = "OPTIMAL" THEN
-          (IF ~e.has_first THEN "ReturnSat.no_model"
-           ELSE IF unsat THEN "ReturnSat.formula_is_unsatisfiable" ELSE "")
-     ELSE IF e.status = "MAX_ITER" THEN
-          (IF seen.maxiter /\ ~seen.budget_ok THEN "ReturnMaxIter.budget_not_exhausted" ELSE "")
-     ELSE "Return.unexpected_status"
+      w1 == IF bad # {} THEN BadModel(sols[CHOOSE i \in bad : \A j \in bad : i <= j])
+            ELSE IF e.has_first /\ BadModel(ToSet(e.first)) # "" THEN BadModel(ToSet(e.first))
+            ELSE IF Cardinality({sols[i] : i \in 1..Len(sols)}) # Len(sols) THEN "Model.duplicate"
+            ELSE ""
+      w2 == IF e.status = "INFEASIBLE" THEN
+                 (IF hasmodel \/ e.has_first THEN "ReturnUnsat.with_a_model"
+                  ELSE IF ~unsat THEN "ReturnUnsat.formula_is_satisfiable" ELSE "")
+            ELSE IF e.status = "OPTIMAL" THEN
+                 (IF ~e.has_first THEN "ReturnSat.no_model"
+                  ELSE IF unsat THEN "ReturnSat.formula_is_unsatisfiable" ELSE "")
+            ELSE IF e.status = "MAX_ITER" THEN
+                 (IF (hasmodel \/ e.has_first) /\ unsat THEN "ReturnMaxIter.model_for_unsatisfiable_formula"
+                  ELSE IF seen.maxiter /\ ~seen.budget_ok THEN "ReturnMaxIter.budget_not_exhausted" ELSE "")
+            ELSE "Return.unexpected_status"
+  IN <<w1, w2>>
 
 Step ==
   /\ ok /\ l <= Len(Ev) /\ l' = l + 1 /\ tid' = tid
@@ -72,16 +76,16 @@ Step ==
             /\ Diag(/\ e.lit \notin TrailLits /\ -e.lit \notin TrailLits
                     /\ (e.reason >= 0 => LET c == ClauseAt(e.reason) IN e.lit \in c /\ \A k \in c \ {e.lit} : IsFalse(k)),
                     IF e.reason >= 0 THEN "Imply.reason_not_unit" ELSE "Assign.already_assigned")
-            /\ UNCHANGED <<db, lemmas, nblock, seen, ok, why>>
+            /\ UNCHANGED <<db, lemmas, nblock, seen, ok, why, why2>>
        [] e.e = "backtrack" ->
             /\ Diag(LitsOf(Prefix(e.to)) = e.trail, "Backjump.trail_not_prefix_of_levels_le_target")
             /\ trail' = [i \in 1..Len(e.trail) |->
                            IF \E j \in 1..Len(trail) : trail[j].lit = e.trail[i]
                            THEN trail[CHOOSE j \in 1..Len(trail) : trail[j].lit = e.trail[i]]
                            ELSE [lit |-> e.trail[i], lvl |-> 0]]
-            /\ UNCHANGED <<db, lemmas, nblock, seen, ok, why>>
+            /\ UNCHANGED <<db, lemmas, nblock, seen, ok, why, why2>>
        [] e.e = "learn" ->
-            IF ~e.has_clause THEN UNCHANGED <<trail, db, lemmas, nblock, seen, ok, why, div>>
+            IF ~e.has_clause THEN UNCHANGED <<trail, db, lemmas, nblock, seen, ok, why, why2, div>>
             ELSE LET c == ToSet(e.clause) IN
                  /\ db' = Append(db, [cl |-> e.clause, blocking |-> FALSE])
                  /\ lemmas' = lemmas \cup {c}
@@ -93,33 +97,35 @@ Step ==
        [] e.e = "block" ->
             /\ db' = Append(db, [cl |-> e.clause, blocking |-> TRUE])
             /\ nblock' = nblock + 1
-            /\ UNCHANGED <<trail, lemmas, seen, ok, why, div>>
+            /\ UNCHANGED <<trail, lemmas, seen, ok, why, why2, div>>
        [] e.e = "reduce_db" ->
             LET kept == {ToSet(e.kept[i]) : i \in 1..Len(e.kept)} IN
             /\ Diag(BlockCnf \subseteq kept, "ReduceDb.dropped_blocking_clause")
             /\ db' = [i \in 1..Len(e.kept) |-> [cl |-> e.kept[i], blocking |-> ToSet(e.kept[i]) \in BlockCnf]]
-            /\ UNCHANGED <<trail, lemmas, nblock, seen, ok, why>>
+            /\ UNCHANGED <<trail, lemmas, nblock, seen, ok, why, why2>>
        [] e.e = "restart_scheduled" ->
             /\ Diag(l > 1 /\ Ev[l - 1].e = "restart" /\ e.next = T.luby_factor * Luby(Ev[l - 1].luby_idx), "Restart.not_luby_schedule")
-            /\ UNCHANGED <<trail, db, lemmas, nblock, seen, ok, why>>
+            /\ UNCHANGED <<trail, db, lemmas, nblock, seen, ok, why, why2>>
        [] e.e = "max_iter" ->
             /\ seen' = [seen EXCEPT !.maxiter = TRUE,
                                     !.budget_ok = \/ (e.budget = "conflicts" /\ e.conflicts >= T.max_conflicts)
                                                   \/ (e.budget = "restarts" /\ e.restarts >= T.max_restarts)]
-            /\ UNCHANGED <<trail, db, lemmas, nblock, ok, why, div>>
+            /\ UNCHANGED <<trail, db, lemmas, nblock, ok, why, why2, div>>
        [] e.e = "model" ->
             /\ Diag(ToSet(e.lits) = TrailLits, "Model.differs_from_trail")
-            /\ UNCHANGED <<trail, db, lemmas, nblock, seen, ok, why>>
+            /\ UNCHANGED <<trail, db, lemmas, nblock, seen, ok, why, why2>>
        [] e.e = "return" ->
-            /\ LET w == ReturnCheck(e) IN IF w = "" THEN Pass ELSE Fail(w)
+            /\ LET w == ReturnCheck(e) IN
+               IF w = <<"", "">> THEN Pass /\ UNCHANGED why2
+               ELSE ok' = FALSE /\ why' = (IF w[1] # "" THEN w[1] ELSE w[2]) /\ why2' = w[2]
             /\ UNCHANGED <<trail, db, lemmas, nblock, seen, div>>
        [] e.e = "noreturn" -> Fail("NoReturn") /\ UNCHANGED <<trail, db, lemmas, nblock, seen, div>>
        [] e.e = "raise" -> Fail("Raise." \o e.what) /\ UNCHANGED <<trail, db, lemmas, nblock, seen, div>>
-       [] OTHER -> UNCHANGED <<trail, db, lemmas, nblock, seen, ok, why, div>>
+       [] OTHER -> UNCHANGED <<trail, db, lemmas, nblock, seen, ok, why, why2, div>>
 \* witness predicates: named facts about the input that identify known findings (DESIGN §4.3)
 Wit == IF InCnf = {{}} THEN {"OnlyEmptyClauses"} ELSE {}
 Spec == Init /\ [][Step]_vars
 Report == (l = Len(Ev) + 1 \/ ~ok) =>
-            PrintT(ToJson([tid |-> tid, ok |-> ok, why |-> why, l |-> l, div |-> div, nlearn |-> seen.learn, nblock |-> nblock,
+            PrintT(ToJson([tid |-> tid, ok |-> ok, why |-> why, why2 |-> why2, l |-> l, div |-> div, nlearn |-> seen.learn, nblock |-> nblock,
                            wit |-> Wit]))
 ===========================================================================
